@@ -866,16 +866,24 @@ def mapping_shape(repo):
                 and isinstance(first.value, ast.Call)
                 and callee(first.value) == '_run_mapping')
             last = tr.body[-1]
-            sh['successLoggedLastInTry'] = (
-                isinstance(last, ast.Expr) and isinstance(last.value, ast.Call)
-                and callee(last.value) == 'info'
-                and any(isinstance(a, ast.Constant)
-                        and 'RAN SUCCESSFULLY' in str(a.value)
-                        for a in last.value.args)
-                and sum('RAN SUCCESSFULLY' in str(getattr(n, 'value', ''))
-                        for n in ast.walk(fn)
-                        if isinstance(n, ast.Constant)) == 1
-                and first is not None and last.lineno > first.lineno)
+            # the last statement of the try is `log.info(<text>)` and that
+            # text is logged nowhere else in the function (whatever it says)
+            def _const_text(call):
+                return [str(a.value) for a in call.args
+                        if isinstance(a, ast.Constant)
+                        and isinstance(a.value, str)]
+            ok_last = (isinstance(last, ast.Expr)
+                       and isinstance(last.value, ast.Call)
+                       and callee(last.value) == 'info'
+                       and len(_const_text(last.value)) == 1)
+            if ok_last:
+                text = _const_text(last.value)[0]
+                ok_last = sum(
+                    1 for n in ast.walk(fn) if isinstance(n, ast.Constant)
+                    and isinstance(n.value, str) and n.value == text) == 1
+            sh['successLoggedLastInTry'] = bool(
+                ok_last and first is not None
+                and last.lineno > first.lineno)
             sh['exceptReraises'] = (
                 len(tr.handlers) == 1
                 and isinstance(tr.handlers[0].body[-1], ast.Raise)
